@@ -381,6 +381,36 @@ use std::sync::{Arc, Mutex, MutexGuard};
 use std::task::Wake;
 use std::{ptr, slice};
 
+/// Observation points for external runtime monitors (feature `verif_hooks`, off by default).
+///
+/// A monitor installs one callback with [`verif_hooks::set_hook`]; the library then reports
+/// named points inside connection creation, symbol lookup and reply parsing. The callback may
+/// sleep or yield to perturb thread interleavings. With the feature disabled no code is generated.
+#[cfg(feature = "verif_hooks")]
+pub mod verif_hooks {
+    use std::sync::atomic::{AtomicUsize, Ordering};
+
+    /// Callback type: (point name, first datum, second datum)
+    pub type Hook = fn(point: &'static str, a: u64, b: u64);
+
+    static HOOK: AtomicUsize = AtomicUsize::new(0);
+
+    /// Install (Some) or remove (None) the process-wide hook.
+    pub fn set_hook(hook: Option<Hook>) {
+        HOOK.store(hook.map(|h| h as usize).unwrap_or(0), Ordering::SeqCst);
+    }
+
+    #[inline]
+    pub(crate) fn fire(point: &'static str, a: u64, b: u64) {
+        let raw = HOOK.load(Ordering::SeqCst);
+        if raw != 0 {
+            // SAFETY: only values stored by `set_hook` (valid `Hook` fn pointers) are non-zero.
+            let hook: Hook = unsafe { std::mem::transmute::<usize, Hook>(raw) };
+            hook(point, a, b);
+        }
+    }
+}
+
 /// This trait is meant to be exported for a 'dyn SomeTrait'.
 /// It can be automatically implemented by using the
 /// macro `#[savefile_abi_exportable(version=0)]` on
@@ -914,6 +944,15 @@ pub fn parse_return_value_impl<T>(
                 file_version,
                 ephemeral_state: HashMap::new(),
             };
+            #[cfg(feature = "verif_hooks")]
+            let deserialize_action = {
+                let total = *len as u64;
+                move |d: &mut Deserializer<Cursor<&[u8]>>| {
+                    let r = deserialize_action(d);
+                    verif_hooks::fire("reply", total, d.reader.position());
+                    r
+                }
+            };
             deserialize_action(&mut deserializer)
         }
         RawAbiCallResult::Panic(AbiErrorMsg { error_msg_utf8, len }) => {
@@ -1360,7 +1399,11 @@ impl<T: AbiExportable + ?Sized + 'static> AbiConnection<T> {
         trait_name: &str,
     ) -> Result<unsafe extern "C" fn(flag: AbiProtocol), SavefileError> {
         let mut entry_guard = Guard::lock(&ENTRY_CACHE);
+        #[cfg(feature = "verif_hooks")]
+        verif_hooks::fire("symbol:entry_cache_locked", 0, 0);
         let mut lib_guard = Guard::lock(&LIBRARY_CACHE);
+        #[cfg(feature = "verif_hooks")]
+        verif_hooks::fire("symbol:library_cache_locked", 0, 0);
 
         if let Some(item) = entry_guard.get(&(shared_library_path.to_string(), trait_name.to_string())) {
             return Ok(*item);
@@ -1519,7 +1562,11 @@ impl<T: AbiExportable + ?Sized + 'static> AbiConnection<T> {
         trait_object: Option<TraitObject>,
         owning: Owning,
     ) -> Result<AbiConnection<T>, SavefileError> {
+        #[cfg(feature = "verif_hooks")]
+        verif_hooks::fire("new:enter", 0, 0);
         let mut templates = Guard::lock(&ABI_CONNECTION_TEMPLATES);
+        #[cfg(feature = "verif_hooks")]
+        verif_hooks::fire("new:templates_locked", 0, 0);
 
         let typeid = TypeId::of::<T>();
         // In principle, it would be enough to key 'templates' based on 'remote_entry'.
@@ -1528,6 +1575,8 @@ impl<T: AbiExportable + ?Sized + 'static> AbiConnection<T> {
         let template = match templates.entry((typeid, remote_entry)) {
             Entry::Occupied(template) => template.get().clone(),
             Entry::Vacant(vacant) => {
+                #[cfg(feature = "verif_hooks")]
+                verif_hooks::fire("new:template_cache_miss", 0, 0);
                 let own_version = T::get_latest_version();
                 let own_native_definition = T::get_definition(own_version);
 
@@ -1580,6 +1629,8 @@ impl<T: AbiExportable + ?Sized + 'static> AbiConnection<T> {
                 let callee_abi_native_definition = callee_abi_native_definition?;
                 let callee_abi_effective_definition = callee_abi_effective_definition?;
 
+                #[cfg(feature = "verif_hooks")]
+                verif_hooks::fire("new:negotiated", effective_version as u64, callee_abi_version as u64);
                 let own_effective_definition = T::get_definition(effective_version);
                 let trait_name = Self::trait_name();
                 let template = Self::analyze_and_create(
@@ -1598,6 +1649,8 @@ impl<T: AbiExportable + ?Sized + 'static> AbiConnection<T> {
         let trait_object = if let Some(obj) = trait_object {
             obj
         } else {
+            #[cfg(feature = "verif_hooks")]
+            verif_hooks::fire("new:before_create_instance", 0, 0);
             let mut trait_object = TraitObject::zero();
             let mut error_msg: String = Default::default();
             unsafe extern "C" fn error_callback(error_receiver: *mut (), error: *const AbiErrorMsg) {
@@ -1618,6 +1671,8 @@ impl<T: AbiExportable + ?Sized + 'static> AbiConnection<T> {
             trait_object
         };
 
+        #[cfg(feature = "verif_hooks")]
+        verif_hooks::fire("new:leave", 0, 0);
         Ok(AbiConnection {
             template,
             owning,
